@@ -286,13 +286,13 @@ def impl_checks(ctx):
 
     def on_alarm(s, f):
         raise TO()
-    old = signal.signal(signal.SIGALRM, on_alarm)
+    old = signal.signal(signal.SIGVTALRM, on_alarm)
     hy_worst = 0.0
     hy_n = 0
     try:
         for tr in np.linspace(1.05, 3.0, 14 if ctx.quick else 40):
             for pr in ([0.05, 0.5, 1.0, 1.5, 3.0, 5.0, 12.0, 20.0, 25.0, 30.0] if ctx.quick else np.linspace(0.02, 30, 90)):
-                signal.setitimer(signal.ITIMER_REAL, 2.0)
+                signal.setitimer(signal.ITIMER_VIRTUAL, 2.0)
                 try:
                     with warnings.catch_warnings():
                         warnings.simplefilter("ignore")
@@ -300,7 +300,7 @@ def impl_checks(ctx):
                 except TO:
                     zh = None
                 finally:
-                    signal.setitimer(signal.ITIMER_REAL, 0)
+                    signal.setitimer(signal.ITIMER_VIRTUAL, 0)
                 hy_n += 1
                 if zh is None or not math.isfinite(zh):
                     bad("z_factor_hallyarbrough does not terminate with a finite value", dict(T_r=float(tr), p_r=float(pr)), zh)
@@ -338,7 +338,7 @@ def impl_checks(ctx):
                     stall_pts.append((q_, float(tr)))
                     q_ = math.nextafter(q_, 100.0)
         for pr, tr in stall_pts:
-            signal.setitimer(signal.ITIMER_REAL, 2.0)
+            signal.setitimer(signal.ITIMER_VIRTUAL, 2.0)
             try:
                 with warnings.catch_warnings():
                     warnings.simplefilter("ignore")
@@ -346,11 +346,11 @@ def impl_checks(ctx):
             except TO:
                 zh = None
             finally:
-                signal.setitimer(signal.ITIMER_REAL, 0)
+                signal.setitimer(signal.ITIMER_VIRTUAL, 0)
             hy_n += 1
             zn = None
             if zh is not None and math.isfinite(zh):
-                signal.setitimer(signal.ITIMER_REAL, 2.0)
+                signal.setitimer(signal.ITIMER_VIRTUAL, 2.0)
                 try:
                     with warnings.catch_warnings():
                         warnings.simplefilter("ignore")
@@ -358,12 +358,12 @@ def impl_checks(ctx):
                 except TO:
                     zn = None
                 finally:
-                    signal.setitimer(signal.ITIMER_REAL, 0)
+                    signal.setitimer(signal.ITIMER_VIRTUAL, 0)
             if zh is None or not math.isfinite(zh) or zn is None or not math.isfinite(zn) or abs(zh / zn - 1) > 1e-3:
                 bad("z_factor_hallyarbrough does not terminate with a finite value that varies continuously with pressure (inputs whose first Newton step lands next to reduced density 1)",
                     dict(T_r=float(tr), p_r=float(pr)), dict(value=zh, value_at_p_times_1_000001=zn))
     finally:
-        signal.signal(signal.SIGALRM, old)
+        signal.signal(signal.SIGVTALRM, old)
     ctx.cov.update(evaluations=ev + hy_n, distinct_nontrivial=len(pts), k1_points=k1_seen,
                    hall_yarbrough_points=hy_n, hall_yarbrough_worst_dev_vs_published=hy_worst,
                    rule="(T_r, p_r) corners + log-uniform random points of [1.05,3]x(0,30]; fine pressure sweeps for continuity; "
